@@ -107,6 +107,11 @@ pub mod k {
     pub const HOSTILE_KIND: i128 = 73; // catalogue entry (see hostile_frames)
     pub const HOSTILE_SIDE: i128 = 74; // which endpoint misbehaves (0 client, 1 server)
     pub const READ_SERIAL: i128 = 75; // reader consumes one stream at a time (lowest id first), the others wait
+    pub const PAD_TO_MTU: i128 = 76;
+    pub const DGRAM_INTERVAL: i128 = 77; // us between application datagrams (0 = all at once)
+    pub const DGRAM_ALT: i128 = 78; // odd-numbered datagrams are small (100 bytes)
+    pub const EARLY_STOP: i128 = 79; // client stops the receive half of each bidi stream right after opening it
+    pub const NO_REDO: i128 = 80; // after a 0-RTT rejection the client does not repeat its workload
     pub const RECONNECT: i128 = 70; // open this many further client connections, one per drained connection (slot reuse)
 }
 
@@ -254,6 +259,7 @@ struct App {
     p_readable: Vec<StreamId>,
     p_writable: Vec<StreamId>,
     next_read_at: u64,
+    next_dgram_at: u64,
 }
 
 struct ConnSt {
@@ -422,6 +428,9 @@ impl World {
         let drb = p.get(k::DGRAM_RECV_BUF, 65536);
         t.datagram_receive_buffer_size(if drb < 0 { None } else { Some(drb as usize) });
         t.datagram_send_buffer_size(p.get(k::DGRAM_SEND_BUF, 65536) as usize);
+        if p.get(k::PAD_TO_MTU, 0) > 0 {
+            t.pad_to_mtu(true);
+        }
         if p.get(k::PACING_BPS, 0) > 0 {
             t.max_outgoing_bytes_per_second(Some(p.get(k::PACING_BPS, 0) as u64));
         }
@@ -534,6 +543,7 @@ impl World {
             p_readable: Vec::new(),
             p_writable: Vec::new(),
             next_read_at: 0,
+            next_dgram_at: 0,
         }
     }
 
@@ -958,6 +968,10 @@ impl World {
         let zero_rtt = self.p.get(k::ZERO_RTT, 0);
         let self_server_early = self.p.get(k::SERVER_EARLY, 0) != 0;
         let read_serial = self.p.get(k::READ_SERIAL, 0) as u64;
+        let early_stop = self.p.get(k::EARLY_STOP, 0) != 0;
+        let no_redo = self.p.get(k::NO_REDO, 0) != 0;
+        let dgram_interval = self.p.get(k::DGRAM_INTERVAL, 0) as u64;
+        let dgram_alt = self.p.get(k::DGRAM_ALT, 0) != 0;
         let now_us = self.now;
         let mut new_app_wake: Option<u64> = None;
         let self_nbidi = self.p.get(k::NBIDI, 1) as u64;
@@ -987,12 +1001,12 @@ impl World {
                     if app.is_client && app.early_started && !conn.accepted_0rtt() {
                         // early data rejected: everything starts over on a fresh connection state
                         tr.push(vec![13, t, 7, c]);
-                        app.want_bidi = self_nbidi;
-                        app.want_uni = self_nuni;
+                        app.want_bidi = if no_redo { 0 } else { self_nbidi };
+                        app.want_uni = if no_redo { 0 } else { self_nuni };
                         app.out.clear();
                         app.inp.clear();
                         app.expect_in = 0;
-                        app.dgrams_left = self_ndgram;
+                        app.dgrams_left = if no_redo { 0 } else { self_ndgram };
                         app.dgram_next = 0;
                         app.started = false;
                     }
@@ -1084,7 +1098,13 @@ impl World {
                             app.want_bidi -= 1;
                             tr.push(vec![3, t, e, c, 1, u64::from(id) as i128, 0, 0]);
                             app.out.push(OutStream { id, total: app.stream_bytes, written: 0, finished: false, reset: false, stopped: false, fin_acked: false });
-                            app.expect_in += 1;
+                            if early_stop && app.is_client {
+                                let r = conn.recv_stream(id).stop(VarInt::from_u32(88));
+                                tr.push(vec![3, t, e, c, 8, u64::from(id) as i128, 88, r.is_ok() as i128]);
+                                app.inp.insert(u64::from(id), InStream { read: 0, done: true, ranges: Vec::new() });
+                            } else {
+                                app.expect_in += 1;
+                            }
                             writable.push(id);
                             did = true;
                         }
@@ -1253,10 +1273,12 @@ impl World {
                 }
             }
             // datagrams
-            if app.dgrams_left > 0 && (app.dgram_next == 0 || dgram_unblocked) {
+            let dgram_due = dgram_interval > 0 && now_us >= app.next_dgram_at;
+            if app.dgrams_left > 0 && (app.dgram_next == 0 || dgram_unblocked || dgram_due) {
                 while app.dgrams_left > 0 {
                     let id = app.dgram_next;
-                    let mut d = vec![0u8; dsize.max(8)];
+                    let this_size = if dgram_alt && id % 2 == 1 { 100 } else { dsize.max(8) };
+                    let mut d = vec![0u8; this_size];
                     d[..8].copy_from_slice(&(id ^ (app.salt << 32)).to_be_bytes());
                     for i in 8..d.len() {
                         d[i] = pattern(id, i as u64, app.salt);
@@ -1265,10 +1287,17 @@ impl World {
                     let space = conn.datagrams().send_buffer_space() as i128;
                     match conn.datagrams().send(Bytes::from(d), ddrop) {
                         Ok(()) => {
-                            tr.push(vec![3, t, e, c, 9, id as i128, dsize.max(8) as i128, 0, max, space]);
+                            tr.push(vec![3, t, e, c, 9, id as i128, this_size as i128, 0, max, space]);
                             app.dgram_next += 1;
                             app.dgrams_left -= 1;
                             did = true;
+                            if dgram_interval > 0 {
+                                app.next_dgram_at = now_us + dgram_interval;
+                                if app.dgrams_left > 0 {
+                                    new_app_wake = Some(new_app_wake.map_or(app.next_dgram_at, |w: u64| w.min(app.next_dgram_at)));
+                                }
+                                break;
+                            }
                         }
                         Err(err) => {
                             let code = match err {
@@ -1277,8 +1306,14 @@ impl World {
                                 quinn_proto::SendDatagramError::TooLarge => 3,
                                 quinn_proto::SendDatagramError::Blocked(_) => 4,
                             };
-                            tr.push(vec![3, t, e, c, 9, id as i128, dsize.max(8) as i128, code, max, space]);
-                            if code != 4 {
+                            tr.push(vec![3, t, e, c, 9, id as i128, this_size as i128, code, max, space]);
+                            if code == 3 && dgram_interval > 0 {
+                                // too large for the current path: skip this one, keep going later
+                                app.dgram_next += 1;
+                                app.dgrams_left -= 1;
+                                app.next_dgram_at = now_us + dgram_interval;
+                                new_app_wake = Some(app.next_dgram_at);
+                            } else if code != 4 {
                                 app.dgrams_left = 0;
                             }
                             break;
@@ -1675,14 +1710,14 @@ impl World {
                 self.probe(epi, chk, None);
                 let cs = &self.eps[epi].conns[&chk];
                 let a = &cs.app;
-                let done_out = a.out.iter().filter(|o| o.fin_acked).count() as i128;
+                let done_out = a.out.iter().filter(|o| o.fin_acked || o.reset || o.stopped).count() as i128;
                 let done_in = a.inp.values().filter(|i| i.done).count() as i128;
                 self.trace.push(vec![14, t, epi as i128, chk as i128, cs.conn_index as i128, a.connected as i128, a.lost as i128, a.closed_local as i128, a.out.len() as i128, done_out, a.inp.len() as i128, done_in, 0]);
             }
             for z in 0..self.eps[epi].zombies.len() {
                 let cs = &self.eps[epi].zombies[z];
                 let a = &cs.app;
-                let done_out = a.out.iter().filter(|o| o.fin_acked).count() as i128;
+                let done_out = a.out.iter().filter(|o| o.fin_acked || o.reset || o.stopped).count() as i128;
                 let done_in = a.inp.values().filter(|i| i.done).count() as i128;
                 self.trace.push(vec![14, t, epi as i128, -1, cs.conn_index as i128, a.connected as i128, a.lost as i128, a.closed_local as i128, a.out.len() as i128, done_out, a.inp.len() as i128, done_in, 1]);
             }
